@@ -80,12 +80,16 @@ func (s *ScopeSchema) Unserialize(data any) (any, error) {
 }
 
 func (s *ScopeSchema) ValidateCompatibility(typeOrData any) error {
+	return s.validateCompatibilityIn(typeOrData, comparedObjects{})
+}
+
+func (s *ScopeSchema) validateCompatibilityIn(typeOrData any, compared comparedObjects) error {
 	schemaType, ok := typeOrData.(*ScopeSchema)
 	if ok {
-		return s.RootObject().ValidateCompatibility(schemaType.ObjectsValue[schemaType.RootValue])
+		return s.RootObject().validateCompatibilityIn(schemaType.ObjectsValue[schemaType.RootValue], compared)
 	}
 
-	return s.RootObject().ValidateCompatibility(typeOrData)
+	return s.RootObject().validateCompatibilityIn(typeOrData, compared)
 }
 
 func (s *ScopeSchema) Validate(data any) error {
